@@ -29,10 +29,18 @@ RULE = ("(a) per-case sweep: every ensemble of 1..3 slots over the grid {0,1/2,1
         "the data dims (sometimes a dim the forecast lacks), labels stored in shuffled order, plain / tail(upper,lower) / interval / generic "
         "chaining call, thresholds scalar or per-case arrays drawn from the same grid (so member = obs = threshold ties are frequent), both "
         "methods, include_components, weights, every request spelling, and a malformed stream (bad method / tail, lower >= upper, member dim in "
-        "obs / weights / request, both requests, unknown dim). A case is distinct by the hash of its full description and non-trivial when the "
+        "obs / weights / request, both requests, unknown dim); "
+        "(c) fixed stored ensemble sizes 5, 7, 9, 51 (and two of 3..50) with NaN members, through every per-case predicate; "
+        "(d) storage dtypes: the ensemble stored as float64 / float32 / int64 / int32 / int16 / int8 / uint8 / uint16 / uint32 / bool (integer "
+        "values, sometimes next to the ends of the dtype's range; 1..9, 12 or 51 members) and the observation in the same or another dtype, "
+        "scored by crps_for_ensemble, the tail / interval variants (fractional thresholds) and brier_score_for_ensemble (operators ge, gt, le, "
+        "lt; thresholds at k+1/2, on a member, a member +- 2^-30, below / above all data) against exact rational oracles and against the same "
+        "call on the float64 copy of the values. A case is distinct by the hash of its full description and non-trivial when the "
         "implementation returns at least one finite value.")
 ASSUMPTIONS = ["thresholds, members and observations are finite rationals or NaN (no +-inf inputs)",
-               "brier_score_for_ensemble is evaluated with the default operator.ge at interval midpoints, where >= and > coincide"]
+               "the Coq statement about brier_score_for_ensemble is for operator.ge (at interval midpoints >= and > coincide); the other operators "
+               "and thresholds on a member are compared with an exact rational oracle only",
+               "storage dtypes are not modelled in Coq (the model computes with rationals): independence of the storage dtype is a tested predicate"]
 TRUSTED = ["tools/sites/c06.py: custom translator site; it checks the statement skeleton of crps_for_ensemble / tw_* and translates only the "
            "elementwise expressions; the NaN-skipping sum/mean/count semantics it assumes are validated by the correspondence check"]
 
@@ -402,6 +410,251 @@ def brier_weights_level(ctx, cases, tag):
                           dict(base, cases=[{"members": xs, "obs": y, "weight": ws[i]} for i, (xs, y) in enumerate(cases)], threshold=mids[j]),
                           float(wantm[j]), float(am[j]))
     ctx.count(tag, len(cases))
+
+
+# ---------------------------------------------------------------------------------------------------
+# storage dtypes: the same values stored as int8..int64 / uint8..uint32 / bool / float32 / float64 score the same
+# ---------------------------------------------------------------------------------------------------
+STORAGE = ["float64", "float32", "int64", "int32", "int16", "int8", "uint8", "uint16", "uint32", "bool"]
+MEMBER_COUNTS = [1, 2, 3, 4, 5, 6, 7, 8, 9, 12, 51]
+OPS = ["ge", "gt", "le", "lt"]
+EPS = Fraction(1, 2 ** 30)      # thresholds a hair above / below a member: exact in float64, lost by any cast to a narrower type
+INT_STORAGE_KEY = "crps-ensemble-integer-storage"
+
+
+def dtype_range(dt):
+    if dt == "bool":
+        return 0, 1
+    i = np.iinfo(dt)
+    return int(i.min), int(i.max)
+
+
+def rand_typed_batch(rng, k, fdt=None, M=None):
+    """k cases with exactly M stored members whose values are representable in the storage dtype fdt (integers for the integer
+    and bool dtypes, NaN only for the float dtypes; a few values per batch, so ties are frequent; for the narrow integer dtypes
+    sometimes values next to both ends of the dtype's range) and an observation dtype that can hold the observations"""
+    fdt = fdt or rng.choice(STORAGE)
+    M = M or rng.choice(MEMBER_COUNTS)
+    if fdt.startswith("float"):
+        grid = GRID if rng.random() < 0.6 else [Fraction(k_, 4) for k_ in range(-10, 11)]
+        pool = rng.sample(grid, rng.randint(2, 5))
+        pn = rng.choice([0.0, 0.0, 0.2])
+        ypool = pool + rng.sample(grid, 2)
+        wide = False
+    else:
+        lo, hi = dtype_range(fdt)
+        wide = fdt in ("int8", "int16", "int32", "uint8", "uint16", "uint32") and rng.random() < 0.2
+        if fdt == "bool":
+            cand = [0, 1]
+        elif wide:
+            cand = list(range(lo, lo + 4)) + list(range(hi - 3, hi + 1)) + [0, 1, (lo + hi) // 2]
+        else:
+            cand = list(range(max(lo, -6), min(hi, 9) + 1))
+        pool = rng.sample(cand, min(len(cand), rng.randint(2, 5)))
+        pn = 0.0
+        ypool = pool + rng.sample(cand, min(2, len(cand)))
+    cases = []
+    for _ in range(k):
+        xs = [NAN if rng.random() < pn else rng.choice(pool) for _ in range(M)]
+        cases.append((xs, rng.choice(ypool)))
+    ys = [y for _, y in cases]
+    opts = [fdt, fdt, "float64"]
+    if all(float(y).is_integer() for y in ys):
+        opts += [d for d in ("int64", "int32", "uint8", "bool") if all(dtype_range(d)[0] <= y <= dtype_range(d)[1] for y in ys)]
+    opts += ["float32"] if not wide else []
+    odt = rng.choice(opts)
+    return cases, fdt, odt
+
+
+def typed_arrays(cases, fdt, odt):
+    f = np.array([[fl(x) for x in xs] for xs, _ in cases], dtype="float64")
+    o = np.array([fl(y) for _, y in cases], dtype="float64")
+    ft, ot = f.astype(fdt), o.astype(odt)
+    # the stored values are the generated ones (a generator that asks for a dtype that cannot hold them is a bug of the check)
+    assert np.array_equal(ft.astype("float64"), f, equal_nan=True) and np.array_equal(ot.astype("float64"), o, equal_nan=True), (fdt, odt)
+    return xr.DataArray(ft, dims=["case", "m"]), xr.DataArray(ot, dims=["case"])
+
+
+def storage_wraps(xs, y, fdt, odt):
+    """would the differences crps_for_ensemble takes (member - member in the forecast dtype, member - obs in the common dtype)
+    leave the range of that dtype?  (unsigned: any negative difference; signed: beyond the dtype's maximum)"""
+    def out(d, dt):
+        k = np.dtype(dt).kind
+        if k == "u":
+            return d < 0
+        if k == "i":
+            return abs(d) > dtype_range(dt)[1]
+        return False
+    vs = [int(x) for x in xs if not isnan(x)]
+    if np.dtype(fdt).kind not in "iu":
+        return False
+    if any(out(a - b, fdt) for a in vs for b in vs):
+        return True
+    rt = np.result_type(np.dtype(fdt), np.dtype(odt))
+    return any(out(a - int(y), rt) or out(int(y) - a, rt) for a in vs) if rt.kind in "iu" and not isnan(y) else False
+
+
+def brier_exact_op(xs, y, t, fair, op):
+    """exact ensemble Brier score of the event `x <op> t`"""
+    ev = {"ge": lambda v: v >= t, "gt": lambda v: v > t, "le": lambda v: v <= t, "lt": lambda v: v < t}[op]
+    valid = [x for x in xs if not isnan(x)]
+    if not valid or isnan(y):
+        return NAN
+    m = len(valid)
+    i = sum(1 for x in valid if ev(x))
+    r = (Fraction(i, m) - (1 if ev(y) else 0)) ** 2
+    if fair and m > 1:
+        r -= Fraction(i * (m - i), m * m * (m - 1))
+    return r
+
+
+def clip_exact(xs, y, lo, hi, meth):
+    """exact oracle: kernel form of the members / observation clipped to [lo, hi] (None = unbounded)"""
+    def g(v):
+        v = v if lo is None else max(v, lo)
+        return v if hi is None else min(v, hi)
+    return kernel_form([g(x) for x in xs if not isnan(x)], NAN if isnan(y) else g(y), meth)
+
+
+def dtype_level(ctx, cases, fdt, odt, tag):
+    """the score of an ensemble does not depend on the dtype its values are stored in: crps_for_ensemble, the tail / interval
+    variants and brier_score_for_ensemble (all four operators, fractional thresholds, thresholds on and a hair beside a member)
+    on integer / bool / float32 arrays = exact rational oracle = the same call on the float64 copy of the same values; the threshold
+    integral of the typed ensemble's Brier score = its CRPS"""
+    import operator
+    p = P()
+    rng = ctx.rng
+    fc, ob = typed_arrays(cases, fdt, odt)
+    fc64, ob64 = fc.astype("float64"), ob.astype("float64")
+    # float32 data are scored in float32; xarray's .where() also promotes (u)int8 / (u)int16 / bool data to float32 (the penalties)
+    tol = 2e-6 if {fdt, odt} & {"float32", "int8", "int16", "uint8", "uint16", "bool"} else 1e-9
+    base = {"fcst_dtype": fdt, "obs_dtype": odt}
+    n = len(cases)
+
+    big = max([abs(v) for xs, y in cases for v in xs + [y] if not isnan(v)] + [1])
+    big = float(big) if big > 100 else 1.0      # values next to the ends of a dtype's range: the total is a small difference of large terms
+
+    def ok(x, q):
+        if big == 1.0 or isnan(q) or not np.isfinite(x):
+            return core.close(x, q, tol)
+        return abs(float(x) - float(q)) <= tol * max(big, abs(float(q)))
+
+    # ---- crps_for_ensemble ----
+    for meth in ("ecdf", "fair"):
+        r = core.call_impl(p.crps_for_ensemble, fc, ob, "m", method=meth, preserve_dims="all", include_components=True)
+        r64 = core.call_impl(p.crps_for_ensemble, fc64, ob64, "m", method=meth, preserve_dims="all", include_components=True)
+        for i, (xs, y) in enumerate(cases):
+            desc = dict(base, fn="crps_for_ensemble[dtype]", members=xs, obs=y, method=meth)
+            valid = [x for x in xs if not isnan(x)]
+            ctx.case((tag, "crps", fdt, odt, meth, tuple(map(str, xs)), str(y)), nontrivial=bool(valid) and not isnan(y))
+            tot = kernel_form(valid, y, meth)
+            if valid and not isnan(y):
+                du = sum((max(y - x, 0) for x in valid), Fraction(0)) / len(valid)
+                do = sum((max(x - y, 0) for x in valid), Fraction(0)) / len(valid)
+            else:
+                du = do = NAN
+            want = [tot, du, do, NAN if isnan(tot) or isnan(du) else du + do - tot]
+            key = INT_STORAGE_KEY if storage_wraps(xs, y, fdt, odt) else None      # only the inputs whose differences leave the dtype's range
+            if r[0] != "ok":
+                ctx.violation("crps_for_ensemble fails for this storage dtype (the same values stored as float64 are scored)", desc,
+                              [str(w) for w in want], r[1], finding_key=INT_STORAGE_KEY if fdt == "bool" and r[1] == "err:TypeError" else None)
+                break
+            got = [float(r[1].sel(component=c).values[i]) for c in COMPONENTS]
+            bad = [c for c, g, w in zip(COMPONENTS, got, want) if not ok(g, w) and not (c == "spread" and isnan(w))]
+            if bad:
+                ctx.violation("crps_for_ensemble of an integer / bool / float32 ensemble differs from the exact CRPS of its values (" + ", ".join(bad) + ")",
+                              desc, [str(w) for w in want], got, finding_key=key)
+            elif r64[0] == "ok" and not same(r[1].values[:, i], r64[1].values[:, i], tol * big).all():
+                ctx.violation("crps_for_ensemble: the same values stored as float64 give another result", desc,
+                              r64[1].values[:, i].tolist(), r[1].values[:, i].tolist(), finding_key=key)
+    # ---- tail / interval variants, fractional thresholds given as floats ----
+    fin = sorted({v for xs, y in cases for v in xs + [y] if not isnan(v)})
+    if fin:
+        cand = sorted({v + d for v in fin for d in (Fraction(-1, 2), Fraction(1, 2), Fraction(1, 4), Fraction(0))})
+        for meth in ("ecdf", "fair"):
+            for kind in ("scalar", "array"):
+                los = [rng.choice(cand) for _ in cases]
+                his = [rng.choice([c for c in cand + [cand[-1] + 1] if c > a]) for a in los]
+                if kind == "scalar":
+                    los, his = [los[0]] * n, [his[0]] * n
+                    tlo, thi = float(los[0]), float(his[0])
+                else:
+                    tlo = xr.DataArray([float(v) for v in los], dims=["case"])
+                    thi = xr.DataArray([float(v) for v in his], dims=["case"])
+                calls = [("tail_tw_crps_for_ensemble(lower)", lambda f, o: p.tail_tw_crps_for_ensemble(f, o, "m", tlo, tail="lower", method=meth, preserve_dims="all"),
+                          lambda i: (None, los[i])),
+                         ("interval_tw_crps_for_ensemble", lambda f, o: p.interval_tw_crps_for_ensemble(f, o, "m", tlo, thi, method=meth, preserve_dims="all"),
+                          lambda i: (los[i], his[i])),
+                         ("tail_tw_crps_for_ensemble(upper)", lambda f, o: p.tail_tw_crps_for_ensemble(f, o, "m", thi, tail="upper", method=meth, preserve_dims="all"),
+                          lambda i: (his[i], None))]
+                for name, f, rng_of in calls:
+                    r = core.call_impl(f, fc, ob)
+                    r64 = core.call_impl(f, fc64, ob64)
+                    if r[0] != "ok":
+                        ctx.violation(name + " fails for this storage dtype", dict(base, fn=name + "[dtype]", members=cases[0][0], obs=cases[0][1], method=meth,
+                                                                                    lower_threshold=los[0], upper_threshold=his[0]), "a value", r[1])
+                        continue
+                    for i, (xs, y) in enumerate(cases):
+                        a, b = rng_of(i)
+                        desc = dict(base, fn=name + "[dtype]", members=xs, obs=y, method=meth, lower_threshold=los[i], upper_threshold=his[i], thresholds=kind)
+                        want = clip_exact(xs, y, a, b, meth)
+                        ctx.case((tag, name, fdt, odt, meth, kind, tuple(map(str, xs)), str(y), str(los[i]), str(his[i])), nontrivial=not isnan(want))
+                        if not ok(r[1].values[i], want):
+                            ctx.violation(name + " of an integer / bool / float32 ensemble differs from the exact CRPS of the clipped values", desc,
+                                          str(want), float(r[1].values[i]))
+                        elif r64[0] == "ok" and not same(r[1].values[i], r64[1].values[i], tol * big):
+                            ctx.violation(name + ": the same values stored as float64 give another result", desc, float(r64[1].values[i]), float(r[1].values[i]))
+    # ---- ensemble Brier score: every cell, four operators, with / without fair correction; threshold integral ----
+    if len(fin) >= 1:
+        mids = [(a + b) / 2 for a, b in zip(fin, fin[1:])]
+        near = [v + d for v in rng.sample(fin, min(len(fin), 4)) for d in (EPS, -EPS)] if abs(fin[0]) < 2 ** 20 and abs(fin[-1]) < 2 ** 20 else []
+        frac = [v + d for v in rng.sample(fin, min(len(fin), 3)) for d in (Fraction(1, 4), Fraction(-3, 4))]
+        ts = sorted(set(mids + fin + near + frac + [fin[0] - Fraction(3, 2), fin[-1] + Fraction(1, 2)]))
+        tf = [float(t) for t in ts]
+        assert all(Fraction(a) == b for a, b in zip(tf, ts))
+        mid_idx = [ts.index(t) for t in mids]
+        wid = [b - a for a, b in zip(fin, fin[1:])]
+        for opn in OPS:
+            for fair in (False, True):
+                kw = dict(fair_correction=fair, preserve_dims="all", event_threshold_operator=getattr(operator, opn))
+                r = core.call_impl(p.brier_score_for_ensemble, fc, ob, "m", tf, **kw)
+                r64 = core.call_impl(p.brier_score_for_ensemble, fc64, ob64, "m", tf, **kw)
+                d0 = dict(base, fn="brier_score_for_ensemble[dtype]", operator=opn, fair=fair)
+                if r[0] != "ok":
+                    ctx.violation("brier_score_for_ensemble fails for this storage dtype", dict(d0, members=cases[0][0], obs=cases[0][1], thresholds=ts), "values", r[1])
+                    continue
+                bs = r[1].transpose("case", "threshold").values
+                b64 = r64[1].transpose("case", "threshold").values if r64[0] == "ok" else None
+                if list(r[1]["threshold"].values) != tf:
+                    ctx.violation("brier_score_for_ensemble: the threshold coordinate of the result is not the thresholds given", dict(d0, thresholds=ts), tf,
+                                  [float(v) for v in r[1]["threshold"].values])
+                for i, (xs, y) in enumerate(cases):
+                    nvalid = sum(1 for x in xs if not isnan(x))
+                    ctx.case((tag, "brier", fdt, odt, opn, fair, tuple(map(str, xs)), str(y), len(ts)), nontrivial=nvalid > 0 and not isnan(y))
+                    cell_bad = False
+                    for j, t in enumerate(ts):
+                        want = brier_exact_op(xs, y, t, fair, opn)
+                        if not core.close(bs[i, j], want):
+                            ctx.violation("ensemble Brier score of an integer / bool / float32 ensemble at this threshold differs from (i/m - 1{obs in event})^2"
+                                          " [- fair correction] of its values (the same values stored as float64: %s)" % ("n/a" if b64 is None else repr(float(b64[i, j]))),
+                                          dict(d0, members=xs, obs=y, threshold=t), str(want), float(bs[i, j]))
+                            cell_bad = True
+                            break
+                        if b64 is not None and not same(bs[i, j], b64[i, j]):
+                            ctx.violation("brier_score_for_ensemble: the same values stored as float64 give another score", dict(d0, members=xs, obs=y, threshold=t),
+                                          float(b64[i, j]), float(bs[i, j]))
+                            cell_bad = True
+                            break
+                    if cell_bad or not mids or (fair and nvalid == 1):
+                        continue
+                    integ = sum(float(w) * bs[i, j] for w, j in zip(wid, mid_idx))
+                    ref = kernel_form([x for x in xs if not isnan(x)], y, "fair" if fair else "ecdf")
+                    if not ok(integ, ref):
+                        ctx.violation("threshold integral of the ensemble Brier score of an integer / bool / float32 ensemble != its CRPS",
+                                      dict(d0, members=xs, obs=y, breakpoints=fin), str(ref), float(integ))
+    ctx.count(tag + ":fcst=" + fdt)
+    ctx.count(tag + ":members=" + str(fc.sizes["m"]))
+    ctx.count(tag, n)
 
 
 def invariance_level(ctx, cases, tag):
@@ -818,10 +1071,12 @@ def replay(ctx, obj):
     items = [obj["violation"]] if "violation" in obj else list(obj.get("no_longer_checks", {}).get("correspondence", []))
     for v in items:
         case = v.get("case", {})
-        fn = case.get("fn")
+        fn = case.get("fn") or ""
         if "members" in case:
             xs, y = unj(case["members"]), unj(case["obs"])
-            if fn == "tail/interval/tail":
+            if fn.endswith("[dtype]"):
+                dtype_level(ctx, [(xs, y)], case["fcst_dtype"], case["obs_dtype"], "replay")
+            elif fn == "tail/interval/tail":
                 tw_level(ctx, [(xs, y)], "replay", fixed=(unj(case["lower_threshold"]), unj(case["upper_threshold"]), case.get("thresholds", "scalar")))
             elif fn == "brier_score_for_ensemble integral":
                 brier_level(ctx, [(xs, y)], "replay")
@@ -858,6 +1113,45 @@ def exhaustive_cases(maxm=3):
     return out
 
 
+def rand_sized_case(rng, M, grid=GRID):
+    """exactly M stored slots (rand_case draws 1..6 and a batch is NaN-padded to its longest member list)"""
+    pn = rng.choice([0.0, 0.0, 0.0, 0.2, 0.5])
+    pool = rng.sample(grid, rng.randint(2, min(6, len(grid))))
+    xs = [NAN if rng.random() < pn else rng.choice(pool) for _ in range(M)]
+    y = NAN if rng.random() < 0.05 else (rng.choice(pool) if rng.random() < 0.5 else rng.choice(grid))
+    return xs, y
+
+
+def size_level(ctx):
+    """every predicate of the per-case level for ensembles of a fixed stored size, odd and larger sizes included (what is stored
+    along the member dimension matters to a loop over members, not only the number of valid members): 5, 7, 9, 51 always"""
+    rng = ctx.rng
+    sizes = [5, 7, 9, 51] + rng.sample([3, 4, 8, 10, 11, 13, 16, 25, 50], min(9, ctx.n(2, 9)))
+    for M in sizes:
+        if not ctx.time_left():
+            break
+        k = ctx.n(10, 60) if M <= 16 else ctx.n(5, 16)
+        chunk = [rand_sized_case(rng, M) for _ in range(k)]
+        case_level(ctx, chunk, "size-case")
+        tw_level(ctx, chunk, "size-tw")
+        invariance_level(ctx, chunk, "size-invariance")
+        brier_level(ctx, chunk[:12], "size-brier")
+        ctx.count("size:members=" + str(M), k)
+
+
+def storage_level(ctx):
+    """integer / bool / float32 storage of the ensemble and the observation (every dtype of STORAGE in every run, odd and large
+    member counts included)"""
+    rng = ctx.rng
+    plan = [(d, rng.choice([2, 3, 4, 5])) for d in STORAGE] + [(None, M) for M in (3, 5, 7, 9, 51)]      # small ensembles first: short failing inputs
+    plan += [(None, None)] * ctx.n(3, 180)
+    for fdt, M in plan:
+        if not ctx.time_left():
+            break
+        cases, fdt, odt = rand_typed_batch(rng, ctx.n(6, 10) if (M or 0) < 20 else 4, fdt=fdt, M=M)
+        dtype_level(ctx, cases, fdt, odt, "storage")
+
+
 def run_without_model(ctx):
     """the extracted model does not build (a site no longer translates): the predicates that relate public calls to each other
     and to the harness' own exact-rational oracles still run and look for a concrete failing input"""
@@ -885,6 +1179,8 @@ def run(ctx):
         for j in range(0, len(chunk), 60):
             brier_weights_level(ctx, chunk[j:j + 12], "brier-weights")
         kwargs_level(ctx, chunk[:100], "chain-kwargs")
+    size_level(ctx)
+    storage_level(ctx)
     tw_level(ctx, [c for c in ex if len(c[0]) >= 2][:: (7 if ctx.tier == "quick" else 1)], "tw-sweep")
     if has_model(ctx):
         full_level(ctx, ctx.n(350, 12000))
